@@ -262,7 +262,105 @@ func (p *c14) Init(tier string, seed int64) {
 	p.corpus = gen.Corpus()
 }
 
-func (p *c14) N() int { return p.nEnum + p.nRand + len(c14LongTargets)*c14LongOffsets*2 }
+func (p *c14) N() int { return p.nEnum + p.nRand + len(c14LongTargets)*c14LongOffsets*2 + len(c14Raw) }
+
+// c14Raw: token sequences the template generator cannot write - punctuation marks next to each other, accepted
+// leniently or refused. Each is spelled with one blank between any two tokens, with none wherever two tokens cannot
+// merge (punctuation and brackets never merge with anything), with line breaks, and mixed: every spelling parses or
+// none does, and those that parse render the same.
+var c14Raw = [][]string{
+	{"{%", "macro", "m", "(", "a", ",", ",", "b", ")", "%}", "x", "{%", "endmacro", "%}", "{{", "_self", ".", "m", "(", "1", ",", "2", ")", "}}"},
+	{"{%", "from", "'lib'", "import", "lm", ",", ",", "lm2", "%}", "{{", "lm", "(", "1", ")", "}}"},
+	{"{{", "[", "1", ",", ",", "2", "]", "|", "b1", "}}"},
+	{"{{", "{", "k", ":", "1", ",", ",", "j", ":", "2", "}", ".", "k", "}}"},
+	{"{{", "t", "?", ":", "2", "}}"},
+	{"{{", "t", "?", "1", ":", ":", "2", "}}"},
+	{"{{", "fn", "(", "1", ",", ",", "2", ")", "}}"},
+	{"{{", "arr", "|", "|", "b1", "}}"},
+	{"{{", "fn", "(", "1", ",", ")", "}}"},
+	{"{%", "set", "q", "=", ",", "1", "%}", "{{", "q", "}}"},
+	{"{{", "t", "?", "[", "1", ",", "]", ":", "{", "k", ":", "1", ",", "}", "}}"},
+	{"{{", "arr", "[", "1", ":", "]", "|", "b1", "}}"},
+	{"{{", "h", ".", "k", "|", "b1", "(", ")", ".", "0", "}}"},
+}
+
+func (p *c14) runRaw(res *fw.Result, j int) {
+	toks := c14Raw[j]
+	word := func(s string) bool {
+		c := s[len(s)-1]
+		return c == '_' || c == '\'' || c >= '0' && c <= '9' || c >= 'a' && c <= 'z' || c >= 'A' && c <= 'Z'
+	}
+	spell := func(kind int) string {
+		var b strings.Builder
+		in := false
+		for k, t := range toks {
+			if k > 0 {
+				prev := toks[k-1]
+				switch prev {
+				case "{{", "{%":
+					in = true
+				case "}}", "%}":
+					in = false
+				}
+				if !in {
+					b.WriteString(" " + t) // (outside the delimiters white space is text)
+					continue
+				}
+				tight := !(word(prev) && word(t[:1])) && !strings.ContainsAny(prev, "{}%") && !strings.ContainsAny(t, "{}%")
+				switch {
+				case kind == 1 && tight, kind == 3 && tight && k%2 == 0:
+				case kind == 2:
+					b.WriteString("\n")
+				case kind == 3:
+					b.WriteString("\t \r\n")
+				default:
+					b.WriteString(" ")
+				}
+			}
+			b.WriteString(t)
+		}
+		return b.String()
+	}
+	aux := c14Aux()
+	type out struct {
+		src, out, kind string
+	}
+	var outs []out
+	for kind := 0; kind < 4; kind++ {
+		prog := &Program{Templates: map[string]*gen.Template{}, Main: "main", Ctx: c14Ctx()}
+		for n, t := range aux {
+			prog.Templates[n] = t
+		}
+		src := spell(kind)
+		srcs := prog.sources(gen.Canon{})
+		srcs["main"] = src
+		env, _ := mon.NewCoreEnv(srcs)
+		vals := map[string]stick.Value{}
+		for k, v := range c14Ctx() {
+			vals[k] = v
+		}
+		o, err, pan, _ := execNoPanic(env, "main", vals, 0)
+		res.Evals++
+		k := "rendered"
+		switch {
+		case pan != nil:
+			k = "panic"
+		case isParseErr(err):
+			k = "parse-error"
+		case err != nil:
+			k = "runtime-error"
+		}
+		outs = append(outs, out{src, o, k})
+	}
+	res.AddClass("raw-token-sequence/" + outs[0].kind)
+	res.UniqueNT = 1
+	for _, o := range outs[1:] {
+		if o.kind != outs[0].kind || o.kind == "rendered" && o.out != outs[0].out || o.kind == "panic" {
+			res.Fail("meaning-changed", fmt.Sprintf("c14:raw:%d", j), fmt.Sprintf("%q: %s %q, but %q: %s %q", outs[0].src, outs[0].kind, clip(outs[0].out, 100), o.src, o.kind, clip(o.out, 100)), map[string]interface{}{"spellings": []string{outs[0].src, o.src}})
+			return
+		}
+	}
+}
 
 // Long templates. Whatever the parser or the tokeniser keep per token (a history, a look-ahead buffer) may be bounded
 // or compacted at some round number of tokens; the amount of white space decides which token of the template is
@@ -368,6 +466,9 @@ func (p *c14) randProgram(i int) *Program {
 }
 
 func (p *c14) Describe(i int) interface{} {
+	if i >= p.nEnum+p.nRand+len(c14LongTargets)*c14LongOffsets*2 {
+		return map[string]interface{}{"kind": "raw token sequence", "tokens": c14Raw[i-(p.nEnum+p.nRand+len(c14LongTargets)*c14LongOffsets*2)]}
+	}
 	if i >= p.nEnum+p.nRand {
 		src, _, desc := c14LongCase(i - p.nEnum - p.nRand)
 		return map[string]interface{}{"kind": desc, "bytes": len(src)}
@@ -428,6 +529,10 @@ func isParseErr(err error) bool {
 }
 
 func (p *c14) Run(i int) (res fw.Result) {
+	if i >= p.nEnum+p.nRand+len(c14LongTargets)*c14LongOffsets*2 {
+		p.runRaw(&res, i-(p.nEnum+p.nRand+len(c14LongTargets)*c14LongOffsets*2))
+		return
+	}
 	if i >= p.nEnum+p.nRand {
 		src, want, desc := c14LongCase(i - p.nEnum - p.nRand)
 		env, _ := mon.NewCoreEnv(map[string]string{"main": src})
